@@ -163,9 +163,19 @@ func (w *dnsWorld) c10Check(when string) {
 			w.s.Failf("c10-stale-address@"+cls, "%s: domain_routing_map holds %s (bitmap %s) but no live cache entry with a non-zero domain bitmap lists that address (entries listing it: %s); last written by %s",
 				when, dnsKernKeyString(k), dnsBitmapString(g), w.c10Owners(k), w.kern.lastWriter[k])
 			return
+		case !inKern && inExp && w.queueDrops > 0:
+			// recorded finding: a lookup's update that finds the bounded asynchronous queue full is dropped by design
+			// ("will be retried on next access"); until somebody looks the entry up again its addresses are missing
+			w.s.Failf("c10-missing-address@after-an-update-was-dropped-at-the-full-queue", "%s: live cache entries %s list %s (union of their domain bitmaps %s) but domain_routing_map has no entry for it; %d update(s) of this run found the asynchronous update queue (capacity %d in this run) full and were dropped; last touched by %s",
+				when, w.c10Owners(k), dnsKernKeyString(k), dnsBitmapString(e), w.queueDrops, w.queueCap, w.kern.lastWriter[k])
+			return
 		case !inKern && inExp:
 			w.s.Failf("c10-missing-address@"+w.kern.writerClass(k)+afterFault, "%s: live cache entries %s list %s (union of their domain bitmaps %s) but domain_routing_map has no entry for it; last touched by %s",
 				when, w.c10Owners(k), dnsKernKeyString(k), dnsBitmapString(e), w.kern.lastWriter[k])
+			return
+		case e != g && w.queueDrops > 0:
+			w.s.Failf("c10-wrong-bitmap@after-an-update-was-dropped-at-the-full-queue", "%s: domain_routing_map[%s] = %s but the live cache entries listing it (%s) have the union %s; %d update(s) of this run found the asynchronous update queue (capacity %d in this run) full and were dropped; last written by %s",
+				when, dnsKernKeyString(k), dnsBitmapString(g), w.c10Owners(k), dnsBitmapString(e), w.queueDrops, w.queueCap, w.kern.lastWriter[k])
 			return
 		case e != g:
 			if _, ok := w.kern.unrecorded[k]; ok {
@@ -234,6 +244,17 @@ func dnsScenarioC10(w *dnsWorld) {
 	w.cfg.janitor = []time.Duration{30 * time.Second, 5 * time.Second}[T.Choose(2)]
 	w.cfg.idleTTL = 2 * time.Minute
 	w.envBudget = T.Range(0, 3)
+	// a third of the runs give the asynchronous update queue room for one or two entries only, so that a
+	// burst (a reload restoring the cache, several lookups at once) finds it full
+	if qs := []int{0, 0, 0, 1, 2}[T.Choose(5)]; qs > 0 {
+		verifDnsUpdateQueueSizeHook = func(int) int { return qs }
+		w.queueCap = qs
+		s.Probe("dns.c10-small-update-queue")
+		verifDnsUpdateDroppedHook = func() {
+			w.queueDrops++
+			s.Probe("dns.c10-update-dropped-at-the-full-queue")
+		}
+	}
 	bpfFaults := T.Chance(1, 5)
 	if !w.setup(dnsSetup{nNames: [2]int{2, 4}, nUps: [2]int{1, 2}, schemes: []string{"udp"}, reject: true, dialMode: consts.DialMode_Ip, bpfFaults: bpfFaults}) {
 		return
@@ -497,3 +518,4 @@ func (w *dnsWorld) c10OverlapProbes(e *dnsEntryObs) {
 }
 
 var _ = netip.Addr{}
+
